@@ -10,7 +10,8 @@ from vf import simnet, wire
 
 T1 = '_http._tcp.local.'
 T2 = '_ipp._tcp.local.'
-TYPE_ID = {T1.lower(): 1, T2.lower(): 2}
+TSUB = '_printer._sub._http._tcp.local.'          # a subtype of T1: a browser of T1 tracks its pointers too
+TYPE_ID = {T1.lower(): 1, T2.lower(): 2, TSUB.lower(): 3}
 
 
 def low(s: str) -> str:
@@ -18,26 +19,39 @@ def low(s: str) -> str:
 
 
 class Vocab:
-    """PTR identities: id -> (type, alias).  ids 1..n1 belong to T1, the rest to T2."""
+    """PTR identities: id -> (type, alias).  ids 1..n1 belong to T1, the next n2 to T2, the last n3 are subtype pointers
+    (owner TSUB, instances of T1 that no T1 pointer of the vocabulary names).  Two of the T1 instance names are special:
+    one has a letter whose lower() and casefold() differ, one has a label of the maximal 63 octets."""
 
-    def __init__(self, n1: int, n2: int) -> None:
+    def __init__(self, n1: int, n2: int, n3: int = 0) -> None:
         self.ids: Dict[int, Tuple[str, str]] = {}
         for k in range(n1):
-            self.ids[len(self.ids) + 1] = (T1, 'Inst%03d.%s' % (k, T1))
+            label = 'Inst%03d' % k
+            if k == 1:
+                label = 'Stra\u00dfe %03d' % k
+            elif k == 2:
+                label = 'L' + 'o' * 58 + 'ng%02d' % k
+                assert len(label) == 63
+            self.ids[len(self.ids) + 1] = (T1, '%s.%s' % (label, T1))
         for k in range(n2):
             self.ids[len(self.ids) + 1] = (T2, 'Prn%03d.%s' % (k, T2))
+        for k in range(n3):
+            self.ids[len(self.ids) + 1] = (TSUB, 'Sub%03d.%s' % (k, T1))
         self.by_key = {(low(t), low(a)): i for i, (t, a) in self.ids.items()}
+        self.by_alias = {low(a): i for i, (t, a) in self.ids.items()}
 
     def json(self) -> List[dict]:
         return [{'id': i, 'ty': TYPE_ID[low(t)]} for i, (t, a) in sorted(self.ids.items())]
 
     def spelled(self, i: int, variant: int) -> str:
         t, a = self.ids[i]
-        if variant % 3 == 1:
-            return a.upper()[:len(a) - len(t)] + t
+        t = T1 if t == TSUB else t
+        head = a[:len(a) - len(t)]
+        if variant % 3 == 1:         # only the ASCII letters change case (RFC 6762 section 16)
+            head = ''.join(chr(ord(c) - 32) if 'a' <= c <= 'z' else c for c in head)
         if variant % 3 == 2:
-            return a.swapcase()[:len(a) - len(t)] + t
-        return a
+            head = ''.join(chr(ord(c) - 32) if 'a' <= c <= 'z' else (chr(ord(c) + 32) if 'A' <= c <= 'Z' else c) for c in head)
+        return head + t
 
 
 def build_ptr_datagram(voc: Vocab, items: List[dict]) -> bytes:
@@ -51,7 +65,7 @@ def build_ptr_datagram(voc: Vocab, items: List[dict]) -> bytes:
 class Recorder:
     def __init__(self, sc: dict) -> None:
         self.sc = sc
-        self.voc = Vocab(sc.get('n1', 6), sc.get('n2', 2))
+        self.voc = Vocab(sc.get('n1', 6), sc.get('n2', 2), sc.get('n3', 0))
         self.net = simnet.Net(seed=sc.get('seed', 0), rand=sc.get('rand'), record_bytes=False)
         self.events: List[dict] = []
         self.did: Dict[bytes, int] = {}
@@ -123,7 +137,7 @@ class Recorder:
         """PTR records of the vocabulary as the public cache shows them right now: [id, created, ttl]."""
         cache = self.host.zc.cache
         out = []
-        for t in (T1, T2):
+        for t in (T1, T2, TSUB):
             for r in cache.get_all_by_details(t, wire.T_PTR, 1):
                 i = self.voc.by_key.get((low(r.name), low(r.alias)), 0)
                 out.append([i, int(r.created), int(r.ttl)])
@@ -136,10 +150,10 @@ class Recorder:
 
         class BL(ServiceListener):
             def add_service(self, zc: Any, type_: str, name: str) -> None:
-                rec.ev('cb', kind='add', ty=TYPE_ID.get(low(type_), 0), alias=rec.voc.by_key.get((low(type_), low(name)), 0))
+                rec.ev('cb', kind='add', ty=TYPE_ID.get(low(type_), 0), alias=rec.voc.by_alias.get(low(name), 0))
 
             def remove_service(self, zc: Any, type_: str, name: str) -> None:
-                rec.ev('cb', kind='rem', ty=TYPE_ID.get(low(type_), 0), alias=rec.voc.by_key.get((low(type_), low(name)), 0))
+                rec.ev('cb', kind='rem', ty=TYPE_ID.get(low(type_), 0), alias=rec.voc.by_alias.get(low(name), 0))
 
             def update_service(self, zc: Any, type_: str, name: str) -> None:
                 pass
@@ -245,6 +259,9 @@ def gen_c10(rng: random.Random, sid: str, thorough: bool = False) -> dict:
     pre = rng.random() < 0.15
     start_t = t
     ids = list(range(1, n1 + 1)) + ([n1 + 1, n1 + 2] if len(types) > 1 else [])
+    # a subtype pointer heard by the browser of the base type (only once the browser runs: it learns those from the link)
+    n3 = 1 if (not pre and rng.random() < 0.4) else 0
+    ids += [n1 + n2 + 1] * (2 * n3)
     nrec = rng.choice([1, 2, 2, 3, 4, 6])
     horizon = 0
     # cluster mode: the 75 % points of all records fall within +-delay of one instant (rate limit, batching, and a timer
@@ -305,7 +322,7 @@ def gen_c10(rng: random.Random, sid: str, thorough: bool = False) -> dict:
         steps.append(bstep)
     end = max(horizon, start_t + 30000) + delay * 3
     steps.append({'op': 'at', 't': end})
-    return with_group(rng, {'id': sid, 'n1': n1, 'n2': n2, 'seed': rng.randint(0, 10 ** 9), 'steps': steps,
+    return with_group(rng, {'id': sid, 'n1': n1, 'n2': n2, 'n3': n3, 'seed': rng.randint(0, 10 ** 9), 'steps': steps,
                             'rand': rng.choice([None, None, 'lo', 'hi'])})
 
 
